@@ -339,6 +339,9 @@ class Message:
             # case, which is that all the sections are returned and
             # identical.
             return True
+        if len(self.question) != len(other.question):
+            # e.g. our one question repeated
+            return False
         for n in self.question:
             if n not in other.question:
                 return False
